@@ -164,6 +164,30 @@ def sig_regions(raw):
             'unhashed': (u0 + 2, u0 + 2 + u), 'left16': (u0 + 2 + u, u0 + 4 + u), 'mpis': (u0 + 4 + u, len(raw))}
 
 
+class Timeout(BaseException):
+    """raised by the interval timer inside `guarded`; BaseException so that PGPy's `except Exception` cannot swallow it"""
+
+
+def _on_alarm(signum, frame):
+    raise Timeout()
+
+
+def guarded(fn, seconds=3.0):
+    """run fn() in the main thread of this process with a wall-clock limit; returns (result, None) or (None, 'timeout').
+    Needed because a subpacket whose length field exceeds the data makes PGPy's FlagList/ByteFlag.parse loop once per
+    claimed octet (2^30 and more iterations for a five-octet length)."""
+    import signal
+    old = signal.signal(signal.SIGALRM, _on_alarm)
+    signal.setitimer(signal.ITIMER_REAL, seconds)
+    try:
+        return fn(), None
+    except Timeout:
+        return None, 'timeout'
+    finally:
+        signal.setitimer(signal.ITIMER_REAL, 0)
+        signal.signal(signal.SIGALRM, old)
+
+
 def canon_text(b):
     """RFC 4880 5.2.1 (0x01): line endings converted to <CR><LF>"""
     return b'\r\n'.join(re.split(b'\r\n|\n', b))
